@@ -2,6 +2,7 @@
 as a violation (oracle / reference / metamorphic failure on the IMPLEMENTATION) and what
 is only a correspondence mismatch (model vs implementation)."""
 import os
+import itertools
 import re
 import shutil
 import subprocess
@@ -855,19 +856,23 @@ def run_C15(ctx):
         kind = "qp"[i % 2]
         bases.append((kind, gen.mutate(r, gen.GRAM[kind](r, lenient=i % 2))))
     cases = []
+    # both configured entry points: `parse_with_config` (entry 1, behind ParserConfig::parse_request / parse_response)
+    # and ParserConfig::parse_*_with_uninit_headers (entry 3), which reach the core by different routes
+    ents = (("", 1), ("u", 3))
     for j, (kind, b) in enumerate(bases):
-        for cfg in range(128):
-            cases.append(("A", "c15.%d.%d" % (j, cfg), kind, 1, cfg, 16, b))
+        for tag, ent in ents:
+            for cfg in range(128):
+                cases.append(("A", "c15%s.%d.%d" % (tag, j, cfg), kind, ent, cfg, 16, b))
     res = execute("C15", cases)
     ctx.broken += res.errors
     own = {"q": gen.REQ_BITS, "p": gen.RESP_BITS}
-    for j, (kind, b) in enumerate(bases):
-        d = res.impl.get("c15.%d.0" % j)
+    for (j, (kind, b)), (tag, ent) in itertools.product(enumerate(bases), ents):
+        d = res.impl.get("c15%s.%d.0" % (tag, j))
         if d is None:
             continue
         D = Obs(d)
         for cfg in range(128):
-            cid = "c15.%d.%d" % (j, cfg)
+            cid = "c15%s.%d.%d" % (tag, j, cfg)
             iraw = res.impl.get(cid)
             if iraw is None:
                 continue
@@ -879,7 +884,7 @@ def run_C15(ctx):
                     ctx.mismatch(c, iraw, res.model[cid])
             I = Obs(iraw)
             # (b) options of the other kind never matter, accepted or not
-            twin = res.impl.get("c15.%d.%d" % (j, cfg & own[kind]))
+            twin = res.impl.get("c15%s.%d.%d" % (tag, j, cfg & own[kind]))
             if twin is not None and twin != iraw:
                 ctx.fail(c, "options of the other message kind changed the result: with only own-kind bits (%d): %s"
                          % (cfg & own[kind], twin), impl=iraw)
@@ -887,7 +892,7 @@ def run_C15(ctx):
             # (a) conservative extension on default-accepted buffers
             if D.kindclass != "C":
                 continue
-            ctx.nontrivial.add((kind, cfg, b))
+            ctx.nontrivial.add((kind, ent, cfg, b))
             ctx.count("accepted:" + kind)
             if cfg % 16 == 1:
                 ctx.sample(c, iraw)
@@ -1219,6 +1224,61 @@ def run_C18(ctx):
                 b = gen.mutate(r, b)
             calls.append((r.below(4), r.below(128), r.choice([0, 1, 2, 4, 8]), b))
         hs.append(("H", "hist.%d" % i, kind, cap, calls))
+    # a recycled read buffer (a keep-alive connection reading message after message into one allocation): every call
+    # gets a FRESH value over a fresh array, but all buffers sit at ONE address.  Nothing is shared between the calls
+    # except that address -- and whatever the crate remembers on its own.  The probe is a near copy of the earlier
+    # message (one byte replaced), so that anything remembered about the earlier bytes is wrong for it.
+    rec = []
+    uri = bytes(c for c in range(33, 127)) + b"\x80\xa9\xff"
+    special = bytes([0, 9, 10, 13, 32, 127]) + b"\"<>\\^`{|}:;,aZ09%/?#"
+    for i in range(2500 if q else 60000):
+        kind = "p" if i % 5 == 4 else "q"
+        if kind == "q" and i % 5 != 3:
+            tl = r.choice([6, 20, 31, 32, 33, 34, 40, 48, 63, 64, 65, 96, 130])
+            base = r.choice([b"GET", b"POST", b"PUT", b"DELETE", b"OPTIONS", b"M-SEARCH"]) + b" /" + \
+                bytes(r.choice(uri) for _ in range(tl)) + b" HTTP/1." + r.choice([b"1", b"0"]) + \
+                r.choice([b"\r\n", b"\n"]) + gen.gram_block(r, lenient=0)
+        else:
+            base = gen.GRAM[kind](r, lenient=0)
+        calls = []
+        for _ in range(1 + r.below(3)):
+            # half of the cuts fall inside the first line (where most of what could be remembered lives)
+            l1 = base.find(b"\n") + 1 or len(base)
+            cut = len(base) if r.chance(1, 8) else r.below((l1 if r.chance(1, 2) else len(base)) + 1)
+            calls.append((r.below(4), 0 if r.chance(3, 4) else r.below(128), r.choice([0, 1, 4, 16]), base[:cut]))
+        p = bytearray(base)
+        t = r.below(8)
+        if t < 5:
+            p[r.below(l1 if r.chance(1, 2) else len(p))] = r.choice(special)
+        elif t == 5:
+            k = r.below(len(p))
+            p[k:k] = bytes([r.choice(special)])
+        elif t == 6:
+            p = bytearray(gen.mutate(r, bytes(p)))
+        cutp = len(p) if r.chance(3, 4) else r.below(len(p) + 1)
+        calls.append((r.below(4), 0 if r.chance(3, 4) else r.below(128), 16, bytes(p[:cutp])))
+        rec.append(("R", "rec.%d" % i, kind, 16, calls))
+    resr = execute("C18-recycled", rec)
+    ctx.broken += resr.errors
+    recfresh = [("A", h[1] + ".fresh", h[2]) + h[4][-1] for h in rec if h[1] in resr.impl]
+    resrf = execute("C18-recycled-fresh", recfresh, want_model=False)
+    ctx.broken += resrf.errors
+    for h in rec:
+        cid = h[1]
+        a, b = resr.impl.get(cid), resrf.impl.get(cid + ".fresh")
+        if a is None or b is None:
+            continue
+        ctx.evaluations += 1
+        if cid in resr.model:
+            ctx.validated += 1
+            if resr.model[cid] != a:
+                ctx.mismatch(h, a, resr.model[cid])
+        ctx.nontrivial.add((h[2], "recycled", tuple(h[4])))
+        ctx.count("recycled-probe:" + Obs(a).kindclass)
+        if a != b:
+            ctx.fail(h, "the outcome depends on more than the buffer, the configuration and the capacity: after %d earlier "
+                     "call(s) on FRESH values whose buffers sat at the same address, the probe gives a result other than "
+                     "the same call made first: alone=%s" % (len(h[4]) - 1, b), impl=a)
     res = execute("C18", hs)
     ctx.broken += res.errors
     fresh = []
